@@ -12,6 +12,7 @@ up to the next //@ line):
   //@ const <file> :: <name>
   inside impl/trait/macro blocks:
   //@ header+ <text>                         text appended to the supertrait list / where clause of the header
+  //@ header-sub <old> => <new>              textual substitution inside the header (recorded as rewrite HDR)
   //@ extra                                  payload = additional (spec/proof) members
   //@ member <fn name>                       select a member fn (anything not selected is dropped and logged)
   inside fn / member:
@@ -738,15 +739,38 @@ class Unit:
             if w == "header+":
                 header = header + " " + s[3:].strip()[len("header+"):].strip()
                 i += 1
+            elif w == "header-sub":
+                # `//@ header-sub OLD => NEW`: textual substitution in the impl/trait header (e.g. to check an impl against
+                # a differently named contract trait); recorded as rewrite HDR
+                a, b = s[3:].strip()[len("header-sub"):].split("=>")
+                a, b = a.strip(), b.strip()
+                if a not in header:
+                    raise LostAnchor(f"{label}: header-sub: `{a}` not in header `{header}`")
+                self.rewrites.append({"rule": "HDR", "in": label, "before": header, "after": header.replace(a, b)})
+                header = header.replace(a, b)
+                i += 1
             elif w == "attr":
                 p, i = self.payload(tl, i)
                 attr += p + "\n"
             elif w == "extra":
                 p, i = self.payload(tl, i)
                 pieces.append(("extra", p, None))
+            elif w == "assoc":
+                # `//@ assoc <name>`: an associated type / const of the container, copied verbatim
+                name = words[1]
+                it = None
+                for m in members:
+                    if m.kind in ("type", "const") and m.name == name:
+                        it = m
+                if it is None:
+                    raise LostAnchor(f"{label}: associated item {name} not found")
+                selected.add(name)
+                text = src.src[it.start:it.end]
+                pieces.append(("extra", apply_rewrites(text, self.rewrites, f"{label}::{name}"), None))
+                i += 1
             elif w == "member":
                 name = words[1]
-                spl, i = self.parse_fn_block(tl, i + 1, ("member", "extra", "end", "header+"))
+                spl, i = self.parse_fn_block(tl, i + 1, ("member", "extra", "end", "header+", "header-sub", "assoc"))
                 it = None
                 for m in members:
                     if m.kind == "fn" and m.name == name:
@@ -772,7 +796,7 @@ class Unit:
         for m in members:
             if m.kind == "fn" and m.name not in selected:
                 self.dropped.append(f"{label}::{m.name}: member not extracted (not under contract)")
-            elif m.kind != "fn":
+            elif m.kind != "fn" and m.name not in selected:
                 self.dropped.append(f"{label}: member {m.kind} {m.name} not extracted")
         self.emit(attr.rstrip() + ("\n" if attr.strip() else "") + header + " {")
         for k, p, ctx in pieces:
